@@ -20,9 +20,11 @@
     at the scheme, the short view is a byte prefix of the long view, Long after Truncate = Short, Long = the whole
     input when no trailing component is present-but-empty.
   History: the tel: case of the link was not provable at first — defect F21 (`tel:a:b@c`), repaired in /repo 8e3585d.
-  Observed outside the addressing range (model = Go; not covered by the theorems, the property speaks of spans that can
-  hold the URI): a span whose end wraps past 65535 makes the Go `end` computation wrap — `AdjustOffs {65528,10}` on
-  `sip:a@b` runs into the explicit panic, `{65530,7}` returns true with Host.Offs wrapped to 0 (the "absent" marker).
+  `refuse_wrapping_span`: a span whose end offset does not fit in 16 bits (Offs + Len ≥ 65536) is refused, structure
+  unchanged, no panic. This is the library repair 1a8b02b (finding F23, found by the sceptical review of the oracles:
+  the property quantifies over target offsets 0..65,535-len AND span lengths up to len+k, the generators kept the end
+  below 65,536): before it `AdjustOffs {65510,26}` on a 25-byte URI panicked AFTER rewriting every offset, and
+  `{65530,25}` returned true with Pass.Offs wrapped to 0 (the "absent" marker).
   No theorem says that a relocated URI is again well formed for a SECOND relocation (the relocation oracle relocates
   twice; seeded change C11d is caught that way).
 -/
@@ -74,9 +76,11 @@ theorem adjust_refused (u : PsipURI) (np : PField) (h : ulenOf u > np.len) :
   simp only
   split
   · rfl
-  · have : (List.foldl (fun a f => ulenStep a u.scheme.offs f) u.scheme.len
-        [u.user, u.pass, u.host, u.port, u.params, u.headers]) > np.len := h
-    rw [if_pos this]
+  · split
+    · rfl
+    · have : (List.foldl (fun a f => ulenStep a u.scheme.offs f) u.scheme.len
+          [u.user, u.pass, u.host, u.port, u.params, u.headers]) > np.len := h
+      rw [if_pos this]
 
 /-- the sum of the component lengths never exceeds a span that holds the whole URI -/
 def sumLen (u : PsipURI) : Nat :=
@@ -108,7 +112,10 @@ theorem adjust_moves (u : PsipURI) (np : PField) (L : Nat) (hwf : WF u L) (hfit 
   have hs2 : ¬ (List.foldl (fun a f => ulenStep a u.scheme.offs f) u.scheme.len
       [u.user, u.pass, u.host, u.port, u.params, u.headers] > np.len) := by
     have := hwf.ulen; unfold ulenOf comps at this; omega
-  simp only [r, PsipURI.adjustOffs, if_neg hs1, if_neg hs2]
+  have hs0 : ¬ (trunc16 (np.offs + np.len) < np.offs) := by
+    have : trunc16 (np.offs + np.len) = np.offs + np.len := Nat.mod_eq_of_lt hlim
+    omega
+  simp only [r, PsipURI.adjustOffs, if_neg hs0, if_neg hs1, if_neg hs2]
   have e1 := adjField_eq u.user u.scheme.offs np.offs np.offs L hu hl
   have e2 := adjField_eq u.pass u.scheme.offs np.offs (adjField u.user u.scheme.offs np.offs np.offs).2 L hp hl
   have e3 := adjField_eq u.host u.scheme.offs np.offs
@@ -210,5 +217,11 @@ theorem parsed_wf (b : Buf) (hfit : b.size ≤ 65535) (hacc : (parseURI b {}).1 
     WF (parseURI b {}).2.2.1 b.size := by
   have h := ul_parsed_wf b hfit hacc
   exact ⟨h.lim, h.sch, h.inside, h.ulen⟩
+
+/-! ### spans that end past the 16-bit range (proved in `Sipsp.Proofs.UriLink`) -/
+
+/-- a span that ends past the 16-bit range (its end offset wraps) is refused, nothing is changed, no panic
+    (library repair 1a8b02b; before it the code panicked after rewriting the offsets, or wrapped them) -/
+theorem refuse_wrapping_span : type_of% @Sipsp.ul_adjust_wrap_refused := @Sipsp.ul_adjust_wrap_refused
 
 end Sipsp.C18
